@@ -36,5 +36,6 @@ Before any go command run:  export PATH=/root/go/pkg/mod/golang.org/toolchain@v0
  - v1.patch and v2.patch: `git diff` of ONLY the source change of each variant (no demo file in the patch), each made against the clean HEAD of the worktree (i.e. variant 2 does not include variant 1). Make sure each applies cleanly with `git apply` to a clean checkout.
  - v1_demo/ and v2_demo/: the demonstration file(s) for each variant, plus a one-line `RUN.txt` giving the exact command to run it from the worktree root (e.g. `cp SEED_OUT/v1_demo/zz_seed_demo_v1_test.go pkg/dhcp/ && go test -count=1 -run TestSeedDemoV1 ./pkg/dhcp/`).
  - NOTES.md: for each variant: what was changed and why it breaks the property, what specific circumstance it needs to manifest, and the commands you ran with their outcome (build ok; which package tests were run and passed with the change; demo fails with change; demo passes without).
+NEVER use `git stash` (the stash is shared between worktrees of one repository and other people are working in sibling worktrees); to get back to a clean tree use `git diff > file` and `git checkout -- .`.
 Leave the worktree's tracked files CLEAN at the end (git checkout -- . ; remove copied demo tests), keeping only SEED_OUT/.
 Verify everything you claim by actually running it. Report back a short summary (files written, and for each variant one sentence on the change).""")
